@@ -184,6 +184,7 @@ def ops_eq(rng, d, cats=DR.CATS):
         ops.append({"op": "Fill", "s": 2, "x": x, "w": w})
     ops.append({"op": "Eq", "a": 1, "b": 2, "must": False})
     ops.append({"op": "Eq", "a": 2, "b": 1, "must": False})
+    ops.append({"op": "EqNear", "a": rng.choice([1, 2])})     # ... and against a copy that is off by one ulp
     return ops, 2
 
 
@@ -266,6 +267,7 @@ def ops_eq_trailing(rng, d, d2):
         ops.append({"op": "Fill", "s": 2, "x": x, "w": w})
     ops.append({"op": "Eq", "a": 1, "b": 2, "must": False})
     ops.append({"op": "Eq", "a": 2, "b": 1, "must": False})
+    ops.append({"op": "EqNear", "a": rng.choice([1, 2])})     # ... and against a copy that is off by one ulp
     return ops, 2
 
 
@@ -424,7 +426,7 @@ def shared_trees(rng):
         host, poss, vd, fd = rng.choice(hosts)
         pos = rng.choice(poss)
         child = fd if pos in ("nan", "under", "over") else vd
-        H = dict(host, xid="E", xpos=pos, xvia=rng.choice(["", "", "copy", "zero", "add"]))
+        H = dict(host, xid="E", xpos=pos, xvia=rng.choice(["", "", "copy", "zero", "add"]), xpre=rng.random() < 0.4)
         E = dict(child, share="E")
         other = rng.choice([D.Count(), D.Sum("y")])
         if k == 14:
@@ -678,6 +680,7 @@ def ops_eq_child(rng, d):
         ops.append({"op": "Fill", "s": 2, "x": x2, "w": Q(1)})
     ops.append({"op": "Eq", "a": 1, "b": 2, "must": False})
     ops.append({"op": "Eq", "a": 2, "b": 1, "must": False})
+    ops.append({"op": "EqNear", "a": rng.choice([1, 2])})     # ... and against a copy that is off by one ulp
     return ops, 2
 
 
